@@ -222,7 +222,8 @@ def cardOK (t : String) (childTypes : List String) : Bool :=
 
 def sectionOf (c : String) : Nat :=
   -- 0 header, 1 linkage, 2 meta, 3 revision, 4 body, 9 unknown (ignored)
-  if c = "NodeUnknown" then 9
+  -- (a statement with a prefixed keyword — also one the package knows by name — belongs to no section)
+  if c = "NodeUnknown" || isPrefixedType c then 9
   else if c ∈ ["NodeYangVersion", "NodeNamespace", "NodePrefix", "NodeBelongsTo"] then 0
   else if c ∈ ["NodeImport", "NodeInclude"] then 1
   else if c ∈ ["NodeOrganization", "NodeContact", "NodeDescription", "NodeReference"] then 2
